@@ -867,6 +867,26 @@ fn dump<'tcx>(tcx: TyCtxt<'tcx>) -> J {
                     ("span", s(span_str(tcx, tcx.def_span(did)))),
                     ("has_body", J::Bool(tcx.is_mir_available(did))),
                 ];
+                // generic parameters in the order of the call's generic arguments (parent's first): name + whether it is a lifetime
+                {
+                    let mut gens = Vec::new();
+                    let g = tcx.generics_of(did);
+                    let mut stack = vec![g];
+                    let mut cur = g;
+                    while let Some(p) = cur.parent {
+                        cur = tcx.generics_of(p);
+                        stack.push(cur);
+                    }
+                    for gg in stack.iter().rev() {
+                        for prm in gg.own_params.iter() {
+                            gens.push(obj(vec![
+                                ("name", s(prm.name.to_string())),
+                                ("lifetime", J::Bool(matches!(prm.kind, ty::GenericParamDefKind::Lifetime))),
+                            ]));
+                        }
+                    }
+                    v.push(("generics", J::Arr(gens)));
+                }
                 if let Some(im) = tcx.impl_of_assoc(did) {
                     v.push(("impl", s(def_str(tcx, im))));
                     v.push(("impl_self", s(ty_str(tcx.type_of(im).instantiate_identity().skip_norm_wip()))));
